@@ -507,3 +507,87 @@ Proof.
     (destruct (forallb (fun col => Nat.eqb (length col) _) _); [|discriminate]);
     (destruct (forallb specobjid_doc_ranges _); discriminate).
 Qed.
+
+(* ---------------- round 6: private helpers and scalar forms ---------------- *)
+
+(* _int64_array as read from the source: [v] as int64 when v fits, ValueError otherwise, for ints and bools alike *)
+Theorem int64_array_exact k v :
+  int64_array_model k v = if fits I64 v then PrArr I64 [v] else PrErr EValueError.
+Proof.
+  unfold int64_array_model, run_promoter, int64_array_promoter. cbn [pr_dtype pr_handlers].
+  unfold np_array1_dtype. destruct (fits I64 v); reflexivity.
+Qed.
+
+Lemma checks_reject checks row i lo hi :
+  In (i, lo, hi) checks -> nth i row 0 < lo \/ hi < nth i row 0 -> checks_ok checks row = false.
+Proof.
+  intros HIn Hout. unfold checks_ok. destruct (forallb _ checks) eqn:E; [|reflexivity].
+  rewrite forallb_forall in E. specialize (E _ HIn). cbn beta iota zeta in E.
+  apply andb_prop in E. destruct E as [E1 E2]. apply Z.leb_le in E1. apply Z.leb_le in E2. lia.
+Qed.
+
+Lemma covers_in n l i : covers n n l = true -> (i < n)%nat -> In i l.
+Proof.
+  unfold covers. intros H Hi. rewrite forallb_forall in H.
+  assert (Hs : In i (seq 0 n)) by (apply in_seq; lia). specialize (H _ Hs).
+  apply orb_prop in H. destruct H as [H|H].
+  - apply Nat.eqb_eq in H. lia.
+  - apply existsb_exists in H. destruct H as (x & Hx & Hx2). apply Nat.eqb_eq in Hx2. subst. exact Hx.
+Qed.
+
+(* a value that no int64 holds is outside every range check whose bounds are int64 numbers *)
+Lemma unfit_rejected n checks row i :
+  checks_inside_int64 n checks = true -> (i < n)%nat -> fits I64 (nth i row 0) = false -> checks_ok checks row = false.
+Proof.
+  unfold checks_inside_int64. intros H Hi Hf. apply andb_prop in H. destruct H as [Hb Hc].
+  pose proof (covers_in _ _ _ Hc Hi) as HIn. apply in_map_iff in HIn. destruct HIn as (((j & lo) & hi) & Hj & HIn).
+  cbn in Hj. subst j. rewrite forallb_forall in Hb. specialize (Hb _ HIn). cbn beta iota in Hb.
+  apply andb_prop in Hb. destruct Hb as [Hlo Hhi].
+  apply (checks_reject _ _ _ _ _ HIn).
+  unfold fits in *. apply andb_prop in Hlo. apply andb_prop in Hhi. destruct Hlo as [L1 L2]. destruct Hhi as [H1 H2].
+  apply Z.leb_le in L1. apply Z.leb_le in L2. apply Z.leb_le in H1. apply Z.leb_le in H2.
+  apply andb_false_iff in Hf. destruct Hf as [Hf|Hf]; apply Z.leb_gt in Hf; lia.
+Qed.
+
+(* the ValueError of _int64_array is the ValueError the row model gives: the value is outside every documented range *)
+Theorem int64_array_rejects_only_out_of_range k row i :
+  (i < 7)%nat -> int64_array_model k (nth i row 0) = PrErr EValueError ->
+  checks_ok objid_checks row = false /\ objid_doc_ranges row = false.
+Proof.
+  intros Hi H. rewrite int64_array_exact in H. destruct (fits I64 (nth i row 0)) eqn:Hf; [discriminate H|].
+  assert (R : checks_ok objid_checks row = false).
+  { apply (unfit_rejected 7 objid_checks row i); [vm_compute; reflexivity | exact Hi | exact Hf]. }
+  split; [exact R|].
+  destruct (objid_doc_ranges row) eqn:D; [|reflexivity].
+  destruct row as [|s [|rr [|r [|c [|f [|fi [|o [|x t]]]]]]]]; try discriminate D.
+  rewrite objid_checks_are_documented in R. congruence.
+Qed.
+
+(* the scalar promotions of sdss_specobjid (np.array([x]), type inferred) never fail and keep the exact value *)
+Theorem specobjid_promotion_exact k v :
+  promo_values (specobjid_promotion_model k v) = Some [v] /\ covers 6 6 specobjid_scalar_promoted = true.
+Proof.
+  split; [|vm_compute; reflexivity].
+  unfold specobjid_promotion_model, run_promoter, specobjid_promoter. cbn [pr_dtype pr_handlers].
+  pose proof (np_array1_inferred_values k v) as H. destruct (np_array1_inferred k v); exact H.
+Qed.
+
+Lemma normaliser_complete_holds : normaliser_complete = true.
+Proof. vm_compute; reflexivity. Qed.
+
+(* every spelling of a scalar is an integer for the function body *)
+Theorem scalar_forms_are_integers :
+  (forall i f, (i < 7)%nat -> form_is_int numpy_scalar_normaliser objid_scalar_normalised i f = true) /\
+  (forall i f, (i < 6)%nat -> form_is_int numpy_scalar_normaliser specobjid_scalar_normalised i f = true).
+Proof.
+  pose proof normaliser_complete_holds as H. unfold normaliser_complete in H.
+  destruct numpy_scalar_normaliser as [l|]; [|discriminate H].
+  apply andb_prop in H. destruct H as [H H6]. apply andb_prop in H. destruct H as [Hc H7].
+  assert (C : forall c, existsb (scalar_class_eqb c) l = true).
+  { intros c. rewrite forallb_forall in Hc. apply Hc. destruct c; cbn; auto. }
+  assert (X : forall n lst i, covers n n lst = true -> (i < n)%nat -> existsb (Nat.eqb i) lst = true).
+  { intros n lst i Hcov Hi. apply existsb_exists. exists i. split; [eapply covers_in; eauto | apply Nat.eqb_refl]. }
+  split; intros i f Hi; destruct f as [|c|]; try reflexivity; unfold form_is_int; rewrite C; cbn [andb].
+  - exact (X 7%nat _ i H7 Hi).
+  - exact (X 6%nat _ i H6 Hi).
+Qed.
